@@ -43,6 +43,10 @@ pub struct WorldCfg {
     /// amounts) as the last entry of the token list — C12 worlds only
     #[serde(default)]
     pub sloppy20: bool,
+    /// a contract account (a "smart wallet": the forwarding stub) takes part in the market like any user —
+    /// it holds coins, tokens and NFTs and sends its messages through `forward`
+    #[serde(default)]
+    pub contract_trader: bool,
 }
 
 pub const DEPLOYER: &str = "deployer";
@@ -179,6 +183,32 @@ pub fn build(cfg: &WorldCfg) -> Result<(Chain, Names), String> {
     let registry = registry.ok_or("market has no registry")?;
 
     let hostile = chain.instantiate(DEPLOYER, code_hostile, b"{}", None)?;
+    let mut users = users;
+    if cfg.contract_trader {
+        for d in &cfg.natives {
+            chain.mint(&hostile, d, cfg.native_amt / 2);
+        }
+        for t in &cw20s {
+            let m = serde_json::json!({"transfer": {"recipient": hostile, "amount": (cfg.cw20_amt / 4).to_string()}});
+            let out = chain.tx(&users[0], t, &serde_json::to_vec(&m).unwrap(), &[], Default::default());
+            if !out.ok {
+                return Err(format!("set-up transfer to the contract account failed: {}", out.err));
+            }
+        }
+        for (k, c) in colls.iter().enumerate() {
+            if sloppy[k] {
+                continue;
+            }
+            for j in 0..cfg.nfts_per_user.min(2) {
+                let m = serde_json::json!({"mint": {"token_id": format!("w{}", j + 1), "owner": hostile, "token_uri": null, "extension": null}});
+                let out = chain.tx(MINTER, c, &serde_json::to_vec(&m).unwrap(), &[], Default::default());
+                if !out.ok {
+                    return Err(format!("set-up mint to the contract account failed: {}", out.err));
+                }
+            }
+        }
+        users.push(hostile.clone());
+    }
     let mut sloppy20: Vec<bool> = cw20s.iter().map(|_| false).collect();
     if cfg.sloppy20 {
         // instantiated last so that all other addresses are the same with and without it
